@@ -25,9 +25,11 @@ def classify(v):
     prog, dims, what = v.get("prog", ""), v.get("dims", ""), v.get("what", "")
     if v["violation"] == "aliasing":
         return "aliasing:" + prog
+    if prog == "ⁿ" and dims == "type":
+        return "pow-byte-exponent-powi"
     if "⌞" in prog and "own" in dims:
         return "cow-left-fill-hidden-prefix"
-    if re.search(r"≡.*/[↥↧]", prog) and dims == "marks":
+    if re.search(r"≡.*/[↥↧]", prog) and "marks" in dims:
         return "reduce-minmax-sorted-depth"
     if re.search(r"≡.*/[↥↧]", prog) and "type" in dims and "[0 0]" in (v.get("result_a", "") + v.get("result_b", "")):
         return "reduce-minmax-byte-empty-rows"
@@ -174,6 +176,6 @@ def run(r):
     r.coverage["evaluations"] = nsteps + evals + len(rcs)
     r.coverage["distinct_nontrivial"] = len(set(tuple(s["op"] for s in h["steps"]) for h in hists if any(not b for s in h["steps"] for b in s["u"])))
     r.coverage["rule"] = ("tie: histories of 12-40 operations over up to 7 live handles (windows up to 14 elements, all 18 operation kinds, fresh element values so that "
-                          "stale data is recognisable) plus 11 directed histories; non-trivial = a history in which at some step a buffer is shared (is_unique false). "
+                          "stale data is recognisable) plus 12 directed histories; non-trivial = a history in which at some step a buffer is shared (is_unique false). "
                           "search: every catalogue entry (monadic and dyadic primitives and modifier applications) on fixed and random numeric arguments, each in all "
                           "{byte,float} x {marks kept, cleared, recomputed} x {fresh, shared clone, slice of a shared larger buffer, slice of a larger buffer that is otherwise dead} variants")
